@@ -50,7 +50,7 @@ pub fn on_death(c: &Case, d: &ChildDeath, allowed: &features::Allowed) -> Outcom
     let feats = features::scan(&c.ty, val, enc);
     let sh = features::blame(&feats, allowed).map(|f| f.name().to_string()).unwrap_or_else(|| generic_shape(&c.ty));
     let what = format!(
-        "evaluator process died ({}) while decoding dust-dds's own output ({}): signal 6 = abort on a failed giant allocation, signal 26 = per-case CPU allowance exceeded; type {}; value {}",
+        "evaluator process died ({}) while decoding dust-dds's own output ({}): signal 6 = abort on a failed giant allocation, signal 27 (SIGPROF) = per-case CPU allowance exceeded; type {}; value {}",
         d.exit,
         enc.name(),
         describe(&c.ty),
